@@ -6,6 +6,7 @@ Case kinds (field 'k'):
   buffer   {'timeout': ticks | None, 'script': [['sub', a] | ['adv', ticks]]}
   batcher  {'cfg': {option: value | absent}, 'script': [['call', key] | ['fin', b] | ['adv', ticks]]}
   loops    {'cfg', 'form', 'par', 'plan': [['seg', loop, script] | ['close', loop]]}
+  formsbuf / formsbat   degenerate option values (0): the three forms are compared with each other only
   cache2 / buffer2 / batcher2   ONE options-form decorator object applied to TWO functions vs. two direct
            wrappings (buffer2: [['sub', j, a] | ['adv', t]]; batcher2: [['call', j, k] | ['fin', j, b] | ['adv', t]])
 buffer / batcher cases are run under direct, deco and ctor (the class itself).
@@ -47,9 +48,9 @@ def run_impl(case):
         return {f: D.run_buffer2(case['timeout'], case['script'], f) for f in ('direct', 'deco')}
     if k == 'batcher2':
         return {f: D.run_batcher2(case['cfg'], case['script'], f) for f in ('direct', 'deco')}
-    if k == 'buffer':
+    if k in ('buffer', 'formsbuf'):
         return {f: D.run_buffer(case['timeout'], case['script'], f) for f in ('direct', 'deco', 'ctor')}
-    if k == 'batcher':
+    if k in ('batcher', 'formsbat'):
         out, cross = {}, 0
         for f in ('direct', 'deco', 'ctor'):
             o = D.run_batcher(case['cfg'], case['script'], f)
@@ -125,14 +126,14 @@ def error_obs(case, o):
     if k == 'cache':
         e = K14.error_obs(case, o)
         return dict(direct=e, deco=e)
-    if k == 'buffer':
+    if k in ('buffer', 'formsbuf'):
         return dict(direct=[[0, [D.EXC]]], deco=[], ctor=[])
     if k == 'buffer2':
         return dict(direct=[[[0, [D.EXC]]], []], deco=[[], []])
     bad = dict(starts=[], dones=[[0, D.EXC]])
     if k == 'batcher2':
         return dict(direct=[bad, bad], deco=[dict(starts=[], dones=[]), bad])
-    if k == 'batcher':
+    if k in ('batcher', 'formsbat'):
         return dict(direct=bad, deco=dict(starts=[], dones=[]), ctor=bad, cross=1)
     return dict(loops=[[0, bad]], solo=[], cross=1)
 
@@ -213,6 +214,11 @@ def to_coq(case, o):
         e0, e1 = K14._evs(dict(events=case['ev0'])), K14._evs(dict(events=case['ev1']))
         return (f"CCache2 {e0} {e1} {f(o['direct'][0])} {f(o['deco'][0])} "
                 f"{f(o['direct'][1])} {f(o['deco'][1])}")
+    if k == 'formsbuf':
+        return f"CFormsBuf {_flushes(o['direct'])} {_flushes(o['deco'])} {_flushes(o['ctor'])}"
+    if k == 'formsbat':
+        return (f"CFormsBat {_btrace(o['direct'])} {_btrace(o['deco'])} {_btrace(o['ctor'])} "
+                f"{C.coq_nat(min(o['cross'], 9))}")
     if k == 'buffer2':
         return (f"CBuffer2 {_timeout(case)} {_bufscript2(case['script'])} {_flushes(o['direct'][0])} "
                 f"{_flushes(o['deco'][0])} {_flushes(o['direct'][1])} {_flushes(o['deco'][1])}")
@@ -238,6 +244,8 @@ def explain_exprs(case, o):
                 K14.explain_exprs(dict(kind='default', events=case['ev1']), o['deco'][1]))
     if k == 'cache':
         return K14.explain_exprs(case, o['deco'])
+    if k in ('formsbuf', 'formsbat'):
+        return []
     if k == 'buffer2':
         return [f"buf_trace {_timeout(case)} (bproj {j} {_bufscript2(case['script'])})" for j in (0, 1)]
     if k == 'batcher2':
@@ -283,6 +291,23 @@ def buffer2_case(timeout, script):
 def batcher2_case(cfg, script):
     """one async_background_batcher(**opts) decorator object applied to two batch functions"""
     return dict(k='batcher2', cfg={o: cfg[o] for o in OPTS if cfg.get(o) is not None}, script=[list(e) for e in script])
+
+
+def formsbuf_case(timeout, script):
+    """degenerate timeout (0): direct, decorator and class forms must coincide; no reference semantics"""
+    return dict(k='formsbuf', timeout=timeout, script=[list(e) for e in script])
+
+
+def formsbat_case(cfg, script):
+    """degenerate option values (0): direct, decorator and class forms must coincide; no reference semantics"""
+    return dict(k='formsbat', cfg={o: cfg[o] for o in OPTS if cfg.get(o) is not None}, script=[list(e) for e in script])
+
+
+# option values that are falsy but not the default (retention_timeout = 0 IS the default), alone and with others
+FORMS_CFGS = [dict(batch_timeout=0), dict(max_batch_size=0), dict(max_concurrent_batches=0),
+              dict(batch_timeout=0, max_batch_size=2), dict(batch_timeout=0, retention_timeout=40),
+              dict(batch_timeout=0, max_batch_size=0, max_concurrent_batches=1, retention_timeout=0),
+              dict(max_concurrent_batches=0, batch_timeout=2), dict(max_batch_size=0, batch_timeout=10, retention_timeout=5)]
 
 
 def loops_case(cfg, plan, form='deco', par=False):
@@ -368,6 +393,9 @@ def corpus():
         # ... the same for the buffer and the batcher: own buffer / own batcher registry per function
         buffer2_case(3, BUF2_PROBES[0]),
         batcher2_case(dict(max_batch_size=2, retention_timeout=40), BAT2_PROBES[0]),
+        # falsy non-default option values must reach the object in every form (forms-only comparison)
+        formsbat_case(dict(batch_timeout=0), [c(1), c(2), a(100), f(0), f(1), a(10)]),
+        formsbuf_case(0, [['sub', 0], ['sub', 1], a(2), ['sub', 2], a(2000)]),
         # the doctests of the batcher in all forms
         batcher_case(dict(max_batch_size=2), [c(1), c(2), c(3), c(4), a(1), f(0), f(1), a(60)]),
         # F7 (fixed): retention_timeout given through the decorator-with-options form
@@ -441,6 +469,12 @@ def gen_exhaustive(tier, seed):
     lb = [k([0]), k([3], [[0, 0]]), k([0])]
     for order in sorted(set(itertools.permutations([0, 0, 0, 1, 1, 1]))):
         out.append(cache2_case(la, lb, order=order))
+    # degenerate option values: forms-only comparison
+    for cfg in FORMS_CFGS:
+        for p in BATCH_PROBES:
+            out.append(formsbat_case(cfg, p))
+    for p in BUF_PROBES:
+        out.append(formsbuf_case(0, p))
     # buffer / batcher: one options-form decorator object applied to two functions
     for t in (None, 3, 50, 200):
         for p in BUF2_PROBES:
@@ -516,9 +550,28 @@ def _rand_case2(rnd):
     return batcher2_case(_rand_cfg(rnd), sc)
 
 
+def _rand_forms(rnd):
+    """random configuration with at least one option forced to 0"""
+    if rnd.random() < 0.3:
+        sc, n = [], 0
+        for _ in range(rnd.randint(2, 10)):
+            if rnd.random() < 0.5:
+                sc.append(['sub', n])
+                n += 1
+            else:
+                sc.append(a(rnd.choice([1, 2, 3, 7, 10, 50])))
+        return formsbuf_case(0, sc + [a(1100)])
+    cfg = _rand_cfg(rnd)
+    for o in rnd.sample(OPTS[:3], rnd.randint(1, 2)):
+        cfg[o] = 0
+    return formsbat_case(cfg, _rand_bscript(rnd, rnd.randint(3, 14)) + [a(300)] + [f(b) for b in range(4)] + [a(100)])
+
+
 def _rand_case(rnd):
     r = rnd.random()
-    if r < 0.1:
+    if r < 0.05:
+        return _rand_forms(rnd)
+    if r < 0.15:
         return _rand_case2(rnd)
     r = rnd.random()
     if r < 0.55:
@@ -575,11 +628,11 @@ def shrink_candidates(case):
         return out
     if k == 'cache':
         return [dict(x, k='cache') for x in K14.shrink_candidates(case)]
-    if k in ('buffer', 'batcher', 'buffer2', 'batcher2'):
+    if k in ('buffer', 'batcher', 'buffer2', 'batcher2', 'formsbuf', 'formsbat'):
         sc = case['script']
         for i in range(len(sc)):
             out.append(dict(case, script=sc[:i] + sc[i + 1:]))
-        if k in ('batcher', 'batcher2'):
+        if k in ('batcher', 'batcher2', 'formsbat'):
             for o in list(case['cfg']):
                 out.append(dict(case, cfg={p: v for p, v in case['cfg'].items() if p != o}))
         return out
@@ -596,14 +649,14 @@ def shrink_candidates(case):
 
 
 def distribution(cases, obs):
-    d = dict(cache=0, cache2=0, buffer=0, buffer2=0, batcher=0, batcher2=0, loops=0, loops_threaded=0, loops_with_close=0,
+    d = dict(cache=0, cache2=0, buffer=0, buffer2=0, batcher=0, batcher2=0, formsbuf=0, formsbat=0, loops=0, loops_threaded=0, loops_with_close=0,
              batches_started=0, callers_answered=0, flushes=0, joint_configs=0, default_configs=0)
     for o in OPTS:
         d['alone_' + o] = 0
         d['set_' + o] = 0
     for cs, ob in zip(cases, obs):
         d[cs['k']] += 1
-        if cs['k'] in ('batcher', 'batcher2', 'loops'):
+        if cs['k'] in ('batcher', 'batcher2', 'formsbat', 'loops'):
             cfg = cs['cfg']
             for o in cfg:
                 d['set_' + o] += 1
@@ -616,14 +669,14 @@ def distribution(cases, obs):
             d['loops_with_close'] += any(s[0] == 'close' for s in cs['plan'])
         if not isinstance(ob, dict) or 'harness_error' in ob:
             continue
-        if cs['k'] == 'batcher':
+        if cs['k'] in ('batcher', 'formsbat'):
             d['batches_started'] += len(ob['deco']['starts'])
             d['callers_answered'] += sum(1 for x in ob['deco']['dones'] if x is not None)
         elif cs['k'] == 'loops':
             for l, t in ob['loops']:
                 d['batches_started'] += len(t['starts'])
                 d['callers_answered'] += sum(1 for x in t['dones'] if x is not None)
-        elif cs['k'] == 'buffer':
+        elif cs['k'] in ('buffer', 'formsbuf'):
             d['flushes'] += len(ob['deco'])
         elif cs['k'] == 'buffer2':
             d['flushes'] += len(ob['deco'][0]) + len(ob['deco'][1])
@@ -650,6 +703,9 @@ RULE = ('cases = one scripted event list (virtual time, harness-owned batch / bu
         'to two functions vs. two direct wrappings — cache: all 20 interleavings of two 3-call lists (stores must stay '
         'private), buffer_until_timeout(timeout=...): 4 timeouts x 3 interleaved scripts, async_background_batcher(...): 6 '
         'configurations x 3 interleaved scripts with overlapping keys (own buffer / own batcher registry per function); '
+        'degenerate option values (0 for timeout / batch_timeout / max_batch_size / max_concurrent_batches, alone and mixed): '
+        'forms-only cases, 8 configurations x 6 probes + timeout=0 x 5 probes, the three forms compared with each other only; '
+        'a cyclic-GC pass is forced before every call that finds the batcher idle (a weakly held batcher would be rebuilt); '
         'per-loop registry — 1..3 loops one after '
         'another (closed before the next / left open), every interleaving of two loops\' three segments, 3 loops round '
         'robin, 2..3 loops in real threads at once.  random layer: random configurations, scripts, two-function merges and loop plans.  '
@@ -683,7 +739,7 @@ LEVEL_TEXT = ('gen/T_Options.v lists, from the AST of the current source, the ke
               'The trace monitor is proved complete — monitor_complete_buffer / _batcher / _loops / _reuse: it accepts every '
               'case whose traces are the reference semantics, for ALL configurations and all well-formed scripts / plans — '
               'and sound — monitor_sound_buffer / _batcher / _loops / _reuse: an accepted case means equal traces in all forms, '
-              'flushes exactly `timeout` after their last submission, batches of 1..max_batch_size submitted keys, answers '
+              '(monitor_forms_only: forms-only cases are accepted iff the three traces coincide), flushes exactly `timeout` after their last submission, batches of 1..max_batch_size submitted keys, answers '
               'from a batch containing the key, every loop equal to its solo run.  The small reference semantics is tied to '
               'the full component models: buffer_reference_refines_full_model (all timeouts, all scripts: Buffer.v on the '
               'translated script calls the function at the instants and with the sets of buf_run) and '
